@@ -534,7 +534,7 @@ func init() {
 		PID: "C10", PLevel: "exploration",
 		RuleText: "each scenario injects ONE failure cause into a running pipeline (both engines): fatal {DLQ threshold exceeded, DLQ write failure, processor error with a DLQ that tolerates none, force stop, retries exhausted, non-converging processor (arch-v2)}, transient {destination stream error, destination Open error}, undetermined by the wording {destination nack with threshold 0: either accepted}, or a stop {user stop, StopAll, user stop accepted during the recovery back-off}; retry limit 0-3 or infinite, back-off 2-60 ms. Judged from the stored status history, the plugin Open events and the monotonic event stamps: fatal => ends Degraded with an error text and no Recovering/automatic restart; transient => at least one automatic restart; every automatic restart is preceded by a Recovering status write, starts no sooner than MinDelay after it (lower bound only) and re-opens every source at the position stored at that moment; no more automatic restarts than MaxRetries; exhaustion ends Degraded naming the cause; after an ACCEPTED stop (call returned nil) no new run starts without a user Start and the final status is User/SystemStopped. Non-trivial: the cause manifested (a Degraded/Recovering status was stored, or a stop was accepted); distinct = distinct (engine, topology, cause, retry limit, final status).",
 		Assume:   []string{"runs are shorter than MaxRetriesWindow, so the attempt counter never decays inside a run", "lateness of a restart is load, only 'sooner than MinDelay' is a verdict (one monotonic clock)", "a Stop that the engine rejects with an error is not an accepted stop"},
-		Quick:    300, Thorough: 9000,
+		Quick:    300, Thorough: 3000,
 		PointBias: []string{"lifecycle.start.checked", "lifecycle.start.before-run", "lifecycle.stop.checked", "lifecycle.recover.backoff-elapsed", "lifecycle.run.ended", "pipeline.updatestatus.before-store"},
 		Anchors:   []string{"pkg/lifecycle/service.go", "pkg/lifecycle-poc/service.go", "pkg/foundation/cerrors/fatal.go", "pkg/lifecycle/stream/dlq.go", "pkg/lifecycle-poc/funnel/dlq.go"},
 		Gen:       gen, Judge: judge, Hooks: hooks,
